@@ -437,7 +437,7 @@ def decode_phase(call):
     Returns None or (block_id, tuple of alleles in haplotype order)."""
     hp = call.get("HP")
     gt, phased = gt_parse(call.get("GT"))
-    if hp not in (None, ".", ""):  # htslib pads a missing string value of another sample with ""
+    if hp not in (None, ".", "") and hp.strip("\x00") != "":  # htslib pads a missing string value of another sample with ""
         fields = [x.split("-") for x in hp.split(",")]
         block = int(fields[0][0])
         order = [int(f[1]) - 1 for f in fields]
